@@ -9,6 +9,7 @@ package main
 import (
 	"bytes"
 	"fmt"
+	"math"
 	"sync"
 	"time"
 
@@ -26,7 +27,7 @@ type c09Case struct {
 	Ops   []BOp  `json:"ops"`
 }
 
-var c09Totals = []int64{-5, 0, 1, 10, 1 << 62}
+var c09Totals = []int64{-5, 0, 1, 10, 1 << 62, math.MaxInt64 - 1, math.MaxInt64}
 
 // the op alphabet of the exhaustive part, argument classes relative to the initial total
 func c09Alphabet(t int64) []BOp {
@@ -296,7 +297,7 @@ func runC09(job common.Job, em *emitter) {
 		case "random":
 			for k := 0; k < 300; k++ {
 				mode := rng.PickS("none", "none", "manual", "auto")
-				t := rng.Pick64(-5, 0, 1, 2, 10, 100, 1<<62, rng.I64n(1<<40), -rng.I64n(100))
+				t := rng.Pick64(-5, 0, 1, 2, 10, 100, 1<<62, rng.I64n(1<<40), -rng.I64n(100), math.MaxInt64, math.MaxInt64-rng.I64n(1000))
 				m := newRef(t)
 				n := rng.Range(1, 40)
 				var ops []BOp
